@@ -216,6 +216,11 @@ def mon_locking(pid, run):
             continue
         d = parse_lock_dump(impl)
         V = d["_vals"]
+        # a dump taken inside a block (before the end-of-block hook): the recorded set still is the previous block's, so only
+        # the statements that hold at every moment are evaluated on it
+        mid = kv(op).get("mid") == "1"
+        if mid and pid == "C13":
+            continue
         if pid == "C11":
             denoms = set(led.locked) | set(d["_slashed"]) | set(led.delivered_unl)
             for v in V.values():
@@ -280,7 +285,7 @@ def mon_locking(pid, run):
             for a, v in V.items():
                 # "a validator that drops below a threshold leaves the candidate set immediately with zero power" - and an
                 # exited validator never comes back: no power, no ranking entry, not in the recorded set
-                if v["status"] == "inactive" and (v["power"] != 0 or a in ranked15 or a in d["_set"]):
+                if v["status"] == "inactive" and (v["power"] != 0 or a in ranked15 or (a in d["_set"] and not mid)):
                     hits.append((i, "exited validator %s still has power %d / ranked=%s / in the set=%s" % (a, v["power"], a in ranked15, a in d["_set"])))
             for u in d["_qunl"]:
                 t0 = led.unlock_req_time.get(u[0])
